@@ -54,3 +54,25 @@ def cfg(g):
     from vf import core
     core.LOG.orders.add(zlib.crc32(repr((list(g.variables), list(g.terminals), len(prods) and prods[0])).encode()))
     return Grammar(prods, start, [v.value for v in g.variables], [t.value for t in g.terminals])
+
+
+def pda(p):
+    """PDA -> ref PDA over values (states, start state, final states, to_dict(); the start stack symbol has no
+    public accessor: read from the object, falling back to the networkx export)"""
+    from pyformlang.pda import Epsilon as PEps
+    from vf.ref import pda as rp
+    trans = []
+    for (q, a, X), outs in p.to_dict().items():
+        for (r, g) in outs:
+            trans.append((q.value, rp.EPS if isinstance(a, PEps) else a.value, X.value, r.value,
+                          tuple(y.value for y in g if not isinstance(y, PEps))))
+    _missing = object()
+    z = getattr(p, "_start_stack_symbol", _missing)
+    if z is _missing:
+        import json
+        gx = p.to_networkx()
+        z0 = json.loads(gx.nodes["INITIAL_STACK_HIDDEN"]["label"]) if "INITIAL_STACK_HIDDEN" in gx.nodes else None
+    else:
+        z0 = z.value if z is not None else None
+    q0 = p.start_state.value if p.start_state is not None else None
+    return rp.PDA(trans, q0, z0, [f.value for f in p.final_states], [s.value for s in p.states])
